@@ -305,7 +305,7 @@ Definition strip_host (h : host_cfg) : host_cfg :=
      h_prepare_single := filter (fun k => negb (has_dot_slash_b k)) (h_prepare_single h) |}.
 Definition strip_internal (c : pcfg) : pcfg :=
   {| pc_default_ext := pc_default_ext c; pc_cache := pc_cache c; pc_fcache := pc_fcache c; pc_host := strip_host (pc_host c);
-     pc_fs := pc_fs c; pc_tree := pc_tree c; pc_handlers := pc_handlers c |}.
+     pc_fs := pc_fs c; pc_tree := pc_tree c; pc_host_header := pc_host_header c; pc_handlers := pc_handlers c |}.
 
 Lemma existsb_filter_key key l :
   has_dot_slash_b key = false ->
